@@ -28,6 +28,12 @@ CLAIMED = {
  'C08': ('3.8', 'symbolic execution of the real encode_sequence with an unbounded symbolic content LENGTH (z3 LIA; symbol count concretised by forking) + real make_sequence on content with free bytes read back by the ISO reader, z3',
          'For every listed mode / level / version-or-count, z3 shows for EVERY content length that encode_sequence yields 1..16 QR symbols, exactly k for symbol_count=k, only version v for version=v, chunk lengths summing to the content in order, and that every chunk with its 20-bit header fits its symbol (outside the recorded deviation, which is pinned to its exact formula). On real symbols with free content bytes: header position/total, parity == XOR of all content bytes in every symbol, reassembled payload == content.',
          'trusted: iso_tables.py, reference reader, z3; segments in the length-level part carry the ISO bit-length formula (justified by C04(3)); ceil(a/b) on doubles treated as exact'),
+ 'C09': ('3.9', 'symbolic execution of the real raster / text serialisers (through writers.save) on matrices of free module bits; format readers written in /verif turn the written symbolic bytes / symbolic text into one colour term per pixel; pixel == module colour decided by z3',
+         'For every listed (format, size, scale, border, colour configuration) z3 shows for ALL module values that the file is well-formed (signature, header fields, declared dimensions == pixel data == (size+2b)*s, PNG chunk order and every CRC field being the crc32 of exactly that chunk) and that every pixel has the dark colour iff the module under it is dark, the quiet zone light; colourful PNG/PPM: the colour configured for the ISO type of the module. Scale/border refusals over symbolic numbers.',
+         'trusted: format readers and reference colour values in /verif/props/c09.py, zlib (compress stubbed to a marked identity, crc32 to a recorded token), z3; ANSI terminal only up to 2 x 5 modules'),
+ 'C11': ('3.11', 'symbolic execution of the real matrix_iter / matrix_iter_verbose (generator with nested classifier) on symbols whose format, version and data modules are free bits; every yielded cell compared by z3 with the ISO type of its position in the dark/light variant',
+         'For all 44 sizes and the listed border/scale combinations z3 shows for ALL module values that verbose iteration reports the ISO module type in the variant matching the module value (type >> 8 != 0 iff dark), plain iteration the module value, quiet zone and repetition by scale as specified; border/scale validation over symbolic numbers; the per-type colour map falls back to dark/light (opaque sentinels). Colourful PNG/PPM rendering is decided in the C09 check (png-colorful / ppm-colorful jobs), colourful SVG in C10.',
+         'trusted: ISO layout classifier /verif/ref/layout.py, z3; the recorded deviation at cell (8, size-9) is pinned to its exact deviant oracle'),
  'C13': ('3.13', 'symbolic execution of the real write_terminator/write_padding_bits/write_pad_codewords with a symbolic stream LENGTH and position (z3 LIA + uninterpreted content), forking on the pad-codeword count',
          'For every (version, level) and every stream length in the stated windows (thorough: every length 0..capacity), z3 shows that every bit position of the padded stream equals ISO 7.4.9/7.4.10 (terminator, padding to the boundary only if needed, 11101100/00010001, final 0000 for M1/M3), remainder bits zero; the recorded aligned-stream deviation is checked against its exact deviant oracle.',
          'trusted: iso_tables.py capacities/terminator lengths, z3; content modelled as an uninterpreted bit function'),
